@@ -490,6 +490,37 @@ Fixpoint s_kind (k : kind) : sexp :=
 
 (* c09.translate: (registry, ast) -> ok kind | error class.  Fuel: generous multiple of the AST depth;
    exhaustion is reported as its own class and counted by the harness (never silently accepted). *)
+(* ---------- executor._check_sequence_call_arguments (fix 109dd7d): run on the tree in which seq.Select(f) has become Select(seq, f),
+   before func_adl's simplifier rebuilds these calls from their first two arguments ---------- *)
+Definition is_seq_op (f : expr) : bool :=
+  match f with EName x => String.eqb x "Select" || String.eqb x "SelectMany" || String.eqb x "Where" | _ => false end.
+Fixpoint seq_arity_ok (e : expr) : bool :=
+  let all := fix all (l : list expr) : bool := match l with [] => true | x :: r => seq_arity_ok x && all r end in
+  match e with
+  | EConst _ | EName _ | ELiteral _ _ | ECppCode _ _ _ _ _ _ _ | EFunAst _ _ | EKind _ => true
+  | EAttr a _ => seq_arity_ok a
+  | ECall f args nkw =>
+      (if is_seq_op f then Nat.eqb (List.length args) 2 && Nat.eqb nkw 0 else true) && seq_arity_ok f && all args
+  | ELambda _ b => seq_arity_ok b
+  | EBinOp _ a b => seq_arity_ok a && seq_arity_ok b
+  | EUnOp _ a => seq_arity_ok a
+  | ECompare _ l cs => seq_arity_ok l && all cs
+  | EBoolOp _ vs => all vs
+  | EIfExp c a b => seq_arity_ok c && seq_arity_ok a && seq_arity_ok b
+  | ESubscript v i => seq_arity_ok v && seq_arity_ok i
+  | ETuple es | EList es => all es
+  | EDict _ _ vs => all vs
+  | EOther _ ch => all ch
+  end.
+Fixpoint all_arity_ok (l : list expr) : bool := match l with [] => true | x :: r => seq_arity_ok x && all_arity_ok r end.
+Definition prepass (e : expr) : result unit := if seq_arity_ok e then OK tt else Error ErrValue.
+(* c09.prepass: expression -> ok | error ValueError *)
+Definition run_prepass (s : sexp) : sexp :=
+  match d_expr s with
+  | Some e => s_result (fun _ => SAtom "") (prepass e)
+  | None => bad_input
+  end.
+
 Definition run_translate (s : sexp) : sexp :=
   match s with
   | SList [g; a] =>
